@@ -36,22 +36,31 @@ class Effects:
         self.fields: dict[FuncInfo, dict[str, set[str]]] = {}   # fi -> param -> attribute names written
         self.details: dict[FuncInfo, list[Mutation]] = {}
         self._origins: dict[FuncInfo, dict[str, set[str]]] = {}
+        self._call_cache: dict = {}
         funcs = list(model.all_functions())
+        self._nodes: dict[FuncInfo, list] = {}
+        self._callees_of: dict[FuncInfo, set] = {}
         for f in funcs:
             self.summary[f] = set()
             self.fields[f] = {}
             self.details[f] = []
+            self._nodes[f] = list(walk_own(f.node))
             self._origins[f] = self._compute_origins(f)
-        changed = True
+        # worklist: a function is re-scanned only when the summary of one of its callees changed
+        callers: dict[FuncInfo, set] = {}
+        work = list(funcs)
         rounds = 0
-        while changed and rounds < 20:
-            changed = False
+        while work and rounds < 40:
             rounds += 1
-            for f in funcs:
+            nxt: set = set()
+            for f in work:
                 before = (set(self.summary[f]), {k: set(v) for k, v in self.fields[f].items()})
                 self._scan(f)
+                for g in self._callees_of.get(f, ()):
+                    callers.setdefault(g, set()).add(f)
                 if (self.summary[f], self.fields[f]) != before:
-                    changed = True
+                    nxt |= callers.get(f, set())
+            work = [f for f in funcs if f in nxt]
 
     # ------------------------------------------------------------- origins
     def _root_params(self, f: FuncInfo, e: ast.AST, origins: dict[str, set[str]]) -> set[str]:
@@ -110,7 +119,7 @@ class Effects:
         while changed and it < 10:
             changed = False
             it += 1
-            for n in walk_own(f.node):
+            for n in self._nodes[f]:
                 if isinstance(n, ast.Assign):
                     src = self._root_params(f, n.value, origins)
                     if isinstance(n.value, (ast.Tuple, ast.List)) and len(n.targets) == 1 and isinstance(n.targets[0], (ast.Tuple, ast.List)) \
@@ -185,7 +194,8 @@ class Effects:
         def mark(node: ast.AST, target: ast.AST, how: str, fields=None) -> None:
             for p in self._root_params(f, target, origins):
                 muts.append(Mutation(f, node, p, how, self._path(target), frozenset(fields if fields is not None else {last_attr(target)})))
-        for n in walk_own(f.node):
+        callees_seen: set = set()
+        for n in self._nodes[f]:
             if isinstance(n, (ast.Attribute, ast.Subscript)) and isinstance(n.ctx, (ast.Store, ast.Del)):
                 mark(n, n.value, "store " + self._path(n), {n.attr} if isinstance(n, ast.Attribute) else {last_attr(n.value)})
             elif isinstance(n, ast.AugAssign) and isinstance(n.target, (ast.Attribute, ast.Subscript)):
@@ -201,7 +211,12 @@ class Effects:
                 if isinstance(fn, ast.Attribute) and isinstance(fn.value, ast.Name) and fn.value.id == "heapq" and n.args:
                     mark(n, n.args[0], f"heapq.{fn.attr}")
                 # interprocedural
-                callees = self.model.resolve_call(f, n, self._local_types(f))
+                key = id(n)
+                cache = self._call_cache.setdefault(f, {})
+                if key not in cache:
+                    cache[key] = self.model.resolve_call(f, n, self._local_types(f))
+                callees = cache[key]
+                callees_seen.update(callees)
                 if len(callees) == 1:
                     g = callees[0]
                     gparams = [x.arg for x in g.node.args.posonlyargs + g.node.args.args]
@@ -228,6 +243,7 @@ class Effects:
                     for kw in n.keywords:
                         if kw.arg and kw.arg in mutated:
                             mark(n, kw.value, f"passed to {g.qualname} (mutates parameter {kw.arg})", self.fields[g].get(kw.arg, set()))
+        self._callees_of[f] = callees_seen
         self.details[f] = muts
         self.summary[f] = {m.root for m in muts}
         fl: dict[str, set[str]] = {}
